@@ -15,7 +15,9 @@
 (***************************************************************************)
 EXTENDS Authz, TLC, Json
 
-CONSTANTS BaseOverwritten, Rounds_, Shape   \* Shape: "reset" (C13) or "snapshot" (C18)
+CONSTANTS BaseOverwritten, Rounds_, Shape,  \* Shape: "reset" / "loadreset" (C13) or "snapshot" (C18)
+          Lims,                             \* run limits an authorizer may be created with (WithWorldOptions); {NoLimit} = none
+          ResetKeepsLimits                  \* FALSE: Reset builds a world with the default limits (negative model)
 
 G(o, l, r) == [o |-> o, l |-> l, r |-> r]
 \* predicates 0 = op/1 ("operation"), 1 = ok/1; constants 0 = read, 1 = write
@@ -38,13 +40,15 @@ Opt(cat, i) == IF i = 0 THEN <<>> ELSE <<cat[i]>>
 Content(f, r, c, p) == [f |-> Opt(FactCat, f), r |-> Opt(RuleCat, r), c |-> Opt(CheckCat, c), p |-> PolLists[p]]
 Contents == {Content(f, r, c, p) : f \in 0..2, r \in 0..2, c \in 0..(IF Shape = "snapshot" THEN 2 ELSE 1), p \in 1..2}
 
-New(t) == [tok |-> t, wf |-> {}, wr |-> <<>>, c |-> <<>>, p |-> <<>>, dirty |-> FALSE, bf |-> {}, br |-> <<>>]
+NewL(t, lim) == [tok |-> t, wf |-> {}, wr |-> <<>>, c |-> <<>>, p |-> <<>>, dirty |-> FALSE, bf |-> {}, br |-> <<>>, lim |-> lim]
+New(t) == NewL(t, NoLimit)
+LimsNone == {NoLimit}
+LimsSmall == {[mf |-> 1, mi |-> 1000000], [mf |-> 2, mi |-> 1000000], [mf |-> 3, mi |-> 1000000]}
 None == [tok |-> 0]
 
 Add(a, x) == [a EXCEPT !.wf = @ \cup SeqSet(x.f), !.wr = @ \o x.r, !.c = @ \o x.c, !.p = @ \o x.p]
 AsAz(a) == [f |-> SetToSeqL(a.wf), r |-> a.wr, c |-> a.c, p |-> a.p]
 \* Authorize on the current state (error-free fragment: catalogues contain no failing rule)
-AuthorizeRes(a) == Proc(Toks[a.tok], [f |-> <<>>, r |-> a.wr, c |-> a.c, p |-> a.p])
 -----------------------------------------------------------------------------
 VARIABLES az,     \* az[s]: authorizer in slot s (1, 2) or None
           snap,   \* saved policies ([ok |-> FALSE] before Save)
@@ -52,7 +56,7 @@ VARIABLES az,     \* az[s]: authorizer in slot s (1, 2) or None
 vars == <<az, snap, hist, round, stage>>
 
 \* Proc starts from S0(az) = facts of az.f; here the world already holds facts: thread them through
-ProcOn(a) == LET z == [f |-> <<>>, r |-> a.wr, c |-> a.c, p |-> a.p]
+ProcOn(a) == LET z == [f |-> <<>>, r |-> a.wr, c |-> a.c, p |-> a.p, lim |-> a.lim]
                  s0 == [S0(z) EXCEPT !.world = a.wf]
                  tok == Toks[a.tok]
                  s1 == RunWorld(LoadAuthority(s0, tok))
@@ -65,19 +69,32 @@ ProcOn(a) == LET z == [f |-> <<>>, r |-> a.wr, c |-> a.c, p |-> a.p]
 AfterAuthorize(a) ==
     LET s == ProcOn(a) v == VerdictOf(s)
         tok == Toks[a.tok]
-        firstRunFails == RunFails(a.wf \cup SeqSet(tok.auth.f), a.wr \o tok.auth.r)
+        F0 == a.wf \cup SeqSet(tok.auth.f)  R0 == a.wr \o tok.auth.r
+        firstRunFails == RunFails(F0, R0) \/ HitsLimit(F0, R0, a.lim)
         b == IF firstRunFails THEN [a EXCEPT !.wf = @ \cup SeqSet(tok.auth.f), !.wr = @ \o tok.auth.r]
              ELSE [a EXCEPT !.wf = s.world, !.wr = <<>>, !.dirty = TRUE]
     IN IF BaseOverwritten /\ v \in {"ok", "denied", "nomatch"} THEN [b EXCEPT !.bf = s.world, !.br = <<>>] ELSE b
-AfterQuery(a) == IF RunFails(a.wf, a.wr) THEN a ELSE [a EXCEPT !.wf = Lfp(a.wf, a.wr), !.dirty = TRUE]
-AfterReset(a) == [a EXCEPT !.wf = a.bf, !.wr = a.br, !.c = <<>>, !.p = <<>>, !.dirty = FALSE]
+QFails(a) == RunFails(a.wf, a.wr) \/ HitsLimit(a.wf, a.wr, a.lim)
+AfterQuery(a) == IF QFails(a) THEN a ELSE [a EXCEPT !.wf = Lfp(a.wf, a.wr), !.dirty = TRUE]
+AfterReset(a) == [a EXCEPT !.wf = a.bf, !.wr = a.br, !.c = <<>>, !.p = <<>>, !.dirty = FALSE, !.lim = IF ResetKeepsLimits THEN @ ELSE NoLimit]
 SnapOf(a) == [ok |-> TRUE, f |-> a.wf, r |-> a.wr, c |-> a.c, p |-> a.p]
 AfterLoad(a, sn) == [a EXCEPT !.wf = @ \cup sn.f, !.wr = @ \o sn.r, !.c = sn.c, !.p = sn.p]
+
+\* an evaluation that reaches a limit EXACTLY may go either way (C11 leaves the boundary to the implementation): such
+\* evaluations are not part of the exported histories.  A limit failure leaves a partially evaluated world behind, which
+\* only Reset cleans: nothing is observed between a limit failure and the next Reset.
+EdgeAuth(a) == LET tok == Toks[a.tok]  F0 == a.wf \cup SeqSet(tok.auth.f)  R0 == a.wr \o tok.auth.r
+                   st == RunStatus(F0, R0, a.lim)
+               IN \/ st = "either"
+                  \/ st = "ok" /\ \E i \in 1..Len(tok.blocks) : RunStatus(Lfp(F0, R0) \cup SeqSet(tok.blocks[i].f), tok.blocks[i].r, a.lim) = "either"
+EdgeQuery(a) == RunStatus(a.wf, a.wr, a.lim) = "either"
+LimitFailsAuth(a) == a.lim # NoLimit /\ VerdictOf(ProcOn(a)) = "other"
+LimitFailsQuery(a) == a.lim # NoLimit /\ QFails(a)
 
 Log(op) == hist' = Append(hist, op)
 H(op, slot, arg, exp) == [op |-> op, a |-> slot, arg |-> arg, exp |-> exp]
 
-Init == /\ \E t \in 1..Len(Toks) : az = <<New(t), None>> /\ hist = << H("new", 1, [t |-> t], [ok |-> TRUE]) >>
+Init == /\ \E t \in 1..Len(Toks), lim \in Lims : az = <<NewL(t, lim), None>> /\ hist = << H("new", 1, [t |-> t, lim |-> lim], [ok |-> TRUE]) >>
         /\ snap = [ok |-> FALSE] /\ round = 1 /\ stage = "add"
 
 \* "loadreset": the round's content arrives as a snapshot made by a throw-away authorizer (slot 2) and LoadPolicies
@@ -96,15 +113,20 @@ DoAdd == /\ stage = "add" /\ Shape # "loadreset"
 
 DoAuthorize(s) == /\ az' = [az EXCEPT ![s] = AfterAuthorize(@)]
                   /\ Log(H("authorize", s, [x |-> 0], [v |-> {VerdictOf(ProcOn(az[s]))}]))
-QueryExp(a, q) == IF RunFails(a.wf, a.wr) THEN [qerr |-> TRUE]
+QueryExp(a, q) == IF QFails(a) THEN [qerr |-> TRUE]
                   ELSE [rows |-> SetToSeqL(Conseq(Queries[q], Lfp(a.wf, a.wr)))]
 DoQuery(s, q) == /\ az' = [az EXCEPT ![s] = AfterQuery(@)]
                  /\ Log(H("query", s, Queries[q], QueryExp(az[s], q)))
 
+\* with limits configured, only histories in which some evaluation fails are of interest (the others are the NoLimit ones)
+HadFailure == \E i \in 1..Len(hist) : \/ hist[i].op = "authorize" /\ hist[i].exp.v = {"other"}
+                                      \/ hist[i].op = "query" /\ "qerr" \in DOMAIN hist[i].exp
+Interesting(failsNow) == (Lims # LimsNone /\ round = Rounds_) => (HadFailure \/ failsNow)
 Eval == /\ stage = "eval"
-        /\ \/ DoAuthorize(1)
-           \/ \E q \in 1..Len(Queries) : DoQuery(1, q)
-        /\ stage' = IF round = Rounds_ THEN (IF Shape \in {"reset", "loadreset"} THEN "final" ELSE "save") ELSE "reset"
+        /\ \/ ~EdgeAuth(az[1]) /\ Interesting(LimitFailsAuth(az[1])) /\ DoAuthorize(1)
+              /\ stage' = IF round = Rounds_ THEN (IF Shape \in {"reset", "loadreset"} THEN (IF LimitFailsAuth(az[1]) THEN "done" ELSE "final") ELSE "save") ELSE "reset"
+           \/ \E q \in 1..Len(Queries) : ~EdgeQuery(az[1]) /\ Interesting(LimitFailsQuery(az[1])) /\ DoQuery(1, q)
+              /\ stage' = IF round = Rounds_ THEN (IF Shape \in {"reset", "loadreset"} THEN (IF LimitFailsQuery(az[1]) THEN "done" ELSE "final") ELSE "save") ELSE "reset"
         /\ UNCHANGED <<snap, round>>
 SkipEval == /\ stage = "eval" /\ Shape = "snapshot" /\ stage' = "save" /\ UNCHANGED <<az, snap, hist, round>>
 \* C13: content added but never evaluated before Reset
@@ -115,7 +137,7 @@ DoReset == /\ stage = "reset"
            /\ round' = round + 1 /\ stage' = "add" /\ UNCHANGED snap
 
 \* C13: after the last round, query both panel queries as well (derived facts must not leak either)
-Final == /\ stage = "final"
+Final == /\ stage = "final" /\ ~EdgeQuery(az[1])
          /\ LET a == az[1]
                 a1 == IF a.dirty /\ a.wr = <<>> THEN a ELSE AfterQuery(a)
             IN /\ hist' = hist \o [q \in 1..Len(Queries) |-> H("query", 1, Queries[q], QueryExp(a, q))]
@@ -144,7 +166,7 @@ Spec == Init /\ [][Next]_vars
 
 -----------------------------------------------------------------------------
 \* C13: Reset restores exactly the state of a newly created authorizer
-ResetClean == stage = "add" => [az[1] EXCEPT !.tok = 0] = [New(0) EXCEPT !.tok = 0] /\ az[1].wf = {} /\ az[1].c = <<>>
+ResetClean == stage = "add" => az[1] = NewL(az[1].tok, hist[1].arg.lim)
 \* C18: the restored authorizer decides like the original would for the same token (checked on equal tokens)
 SnapshotEquiv == stage = "done" /\ Shape = "snapshot" /\ snap.ok /\ az[2].tok # 0 /\ az[2].tok = az[1].tok =>
                     hist[Len(hist)].exp = hist[Len(hist) - Len(Queries) - 1].exp
